@@ -22,6 +22,9 @@ EXPLANATION = (
 EXPLANATION += (
     " " + "R1 also (hops 3b/3c): in setup_families no family_finder.merge is reachable after a family_finder.find (representatives are final when families / family_trios are keyed), and every trio of all_trios is filed under its child's family."
 )
+EXPLANATION += (
+    " " + 'R7: a variant that is phased from the genotypes alone keeps a phase set of its own -- the component map covers every accessible position (C03.R2) and no family of a processed chromosome is passed over before it reaches the solver.'
+)
 NOT_DECIDED = "mendelian_conflict's truth table over genotype values and the allele-assignment filter of the cost computer (value level)."
 ASSUMPTIONS = ["Pedigree::addIndividual assigns indices in call order (checked), ReadSet keeps insertion order until sort() is called"]
 
@@ -363,7 +366,15 @@ def r3(ctx):
                 if not fam:
                     ok, why = False, "the union with homozygous_positions is not guarded by len(family) > 1 and genetic_haplotyping"
                 elif val not in UNI:
-                    ok, why = (None if ok else ok), "accessible positions in genetic mode are %s" % val[:80]
+                    # not one of the union spellings: a boolean `or` / `and`, an intersection or a difference of the two sets is
+                    # certainly not their union; anything else is left undecided
+                    ve = ast.parse(val, mode="eval").body
+                    inner_ = ve.args[0] if isinstance(ve, ast.Call) and u(ve.func) in ("sorted", "list") and len(ve.args) == 1 else ve
+                    not_union = isinstance(inner_, ast.BoolOp) or (isinstance(inner_, ast.BinOp) and isinstance(inner_.op, (ast.BitAnd, ast.Sub, ast.BitXor))) or (isinstance(inner_, ast.Call) and isinstance(inner_.func, ast.Attribute) and inner_.func.attr in ("intersection", "difference", "symmetric_difference"))
+                    if not_union:
+                        ok, why = False, "with genetic haplotyping the accessible positions are %s, which is not the union of the covered and the homozygous positions" % val[:90]
+                    else:
+                        ok, why = (None if ok else ok), "accessible positions in genetic mode are %s" % val[:80]
             else:
                 if fam:
                     ok, why = False, "with len(family) > 1 and genetic haplotyping the homozygous positions are not added to the accessible ones (%s)" % val[:60]
